@@ -376,6 +376,25 @@ package jlib
 //@   atcall[C18:json-number-syntax-only] regexp.Regexp.MatchString#0 requires callee_arg0 == reNumber && same(callee_arg1, sval(res(value)))
 //@   atcall[C18:nearest-double] strconv.ParseFloat#0 requires same(callee_arg0, sval(res(value))) && callee_arg1 == 64
 
+// --- C19: milliseconds <-> time -----------------------------------------------------------------------------------------------------
+// msToTime hands time.Unix whole seconds and a nanosecond part that together are exactly ms milliseconds (truncated
+// division: for negative ms both parts are non-positive, which time.Unix normalises); timeToMS is UnixNano / 10^6.
+//@ func msToTime
+//@   props C19 C09
+//@   atcall[C19:exactly-ms-milliseconds] time.Unix#0 requires callee_arg0 * 1000 + callee_arg1 / 1000000 == ms && callee_arg1 % 1000000 == 0 && -1000000000 < callee_arg1 && callee_arg1 < 1000000000
+//@ func timeToMS
+//@   props C19 C09
+//@   ensures [C19:milliseconds-of-the-instant] result == ret("time.Time.UnixNano#0", 0) / 1000000
+// parseTimeZone: exactly five characters, sign then HHMM (decimal digits); the offset is sign * (HH hours + MM
+// minutes) in seconds, handed to time.FixedZone
+//@ func parseTimeZone
+//@   props C19 C09
+//@   ensures [C19:five-characters] len(tz) != 5 ==> (r0 == nil && r1 != nil)
+//@   ensures [C19:sign-required] (len(tz) == 5 && tz[0] != 43 && tz[0] != 45) ==> (r0 == nil && r1 != nil)
+//@   atcall[C19:hours-are-characters-1-2] strconv.Atoi#0 requires same(callee_arg0, tz[1:3])
+//@   atcall[C19:minutes-are-characters-3-4] strconv.Atoi#1 requires same(callee_arg0, tz[3:5])
+//@   atcall[C19:offset-in-seconds] time.FixedZone#0 requires callee_arg1 == (tz[0] == 45 ? -1 : 1) * (60 * (60 * ret("strconv.Atoi#0", 0) + ret("strconv.Atoi#1", 0)))
+
 // --- C13: $sort ------------------------------------------------------------------------------------------
 // $sort(a) on an all-number / all-string array: the members are collected in order (every one of them a float64 /
 // a string, which is what the comparison closures assert), then ordered by sort.SliceStable (trusted: stable) with
